@@ -483,6 +483,9 @@ func c05gen(r *rand.Rand, tier string, emit func(string)) {
 	for _, p := range c05systematic() {
 		emit("prog 20000 " + p)
 	}
+	for _, src := range c05srcPrograms() {
+		emit("gosrc " + c05srcEncode(src))
+	}
 	for i := 0; i < n; i++ {
 		g := &c05g{r: r, nvar: 9, size: 10 + r.Intn(25), maxd: 2 + r.Intn(3), special: r.Intn(100) < 8}
 		prog := g.program()
